@@ -17,13 +17,17 @@ ScalarOk(e) ==
   /\ Chk(e.wst = "ok" /\ e.enc = enc, R(e, e.kind, "WriteScalar", IF e.wst = "ok" THEN "bytes-differ" ELSE e.wst))
   /\ Chk(e.rst = "ok" /\ e.rval = ReadBack(e.kind, v) /\ e.rn = Len(enc), R(e, e.kind, "ReadScalar", IF e.rst # "ok" THEN e.rst ELSE IF e.rn # Len(enc) THEN "consumed" ELSE "value"))
 HdrOk(e) ==
+  \* listpos / mappos: the header written behind e.pre with a placeholder count (Write*BeginWithSizePos), e.tail appended, and the
+  \* count patched in afterwards (ModifyI32 at the position the writer returned): the result is the header of the final count
   LET enc == CASE e.kind = "field" -> FieldBegin(e.a, e.n)
                [] e.kind = "stop" -> <<0>>
-               [] e.kind \in {"list", "set"} -> ListBegin(e.a, e.n)
-               [] e.kind = "map" -> MapBegin(e.a, e.b2, e.n)
+               [] e.kind \in {"list", "set", "listpos"} -> ListBegin(e.a, e.n)
+               [] e.kind \in {"map", "mappos"} -> MapBegin(e.a, e.b2, e.n)
                [] e.kind = "msg" -> MsgBegin(e.name, e.a, e.seq)
+      pos == CASE e.kind = "listpos" -> Len(e.pre) + 1 [] e.kind = "mappos" -> Len(e.pre) + 2 [] OTHER -> 0 - 1
   IN
-  /\ Chk(e.wst = "ok" /\ e.enc = enc, R(e, e.kind, "WriteHeader", IF e.wst = "ok" THEN "bytes-differ" ELSE e.wst))
+  /\ Chk(e.wst = "ok" /\ e.pos = pos /\ e.enc = (IF pos < 0 THEN enc ELSE PatchI32(e.pre \o enc \o e.tail, pos, e.n)),
+         R(e, e.kind, "WriteHeader", IF e.wst # "ok" THEN e.wst ELSE IF e.pos # pos THEN "size-position" ELSE "bytes-differ"))
   \* (a count that no data can back - e.g. 2^31-1 elements in a few bytes - may be refused by a robust reader)
   /\ Chk((e.r.st = "ok" \/ (~e.backed /\ e.r.st = "err"))
          /\ (e.r.st = "ok" => e.r.n = Len(enc) /\ e.r.a = e.a /\ e.r.b2 = e.b2 /\ e.r.num = e.n /\ e.r.name = e.name /\ e.r.seq = e.seq),
